@@ -49,6 +49,8 @@ Definition p0 : list (event * list out) :=
   [(SL 0 false (T 0 1 []),[Os SOK]); (SS 1 0 false (T 0 2 []),[Os SOK]); (SS 2 0 false (T 0 3 []),[Os SOK])].
 Definition p1 : list (event * list out) :=
   p0 ++ [(Pb 0 (T 1 4 [1; 2]),[]); (Pb 1 (T 1 5 []),[]); (Pb 2 (T 2 6 []),[])].
+Definition p2 : list (event * list out) :=
+  p1 ++ [(St 1,[Ot TOK]); (SS 1 0 false (T 2 7 []),[Os SOK])].
 
 Fixpoint list_eqb {A} (eqb : A -> A -> bool) (a b : list A) : bool :=
   match a, b with
